@@ -150,3 +150,4 @@ blocker_harness!(4, fn c04_prec_tag_off() { prec_kernel(true, false); });
 blocker_harness!(4, fn c04_prec_tag_on() { prec_kernel(true, true); });
 
 
+
